@@ -32,6 +32,9 @@ struct OpCounts {
       cmp{0}, copy{0};
   // reads of a default-constructed (indeterminate) value; always counted
   std::atomic<uint64_t> poison{0};
+  // constructions from an integer value that does not fit an int: the
+  // documented requirement is static_cast<T>(int); always counted
+  std::atomic<uint64_t> bigint{0};
 };
 inline OpCounts &counts() {
   static OpCounts c;
@@ -74,6 +77,13 @@ class Q final {
   template <typename I, std::enable_if_t<std::is_integral_v<I>, bool> = true>
   explicit Q(I v) : _v(v) {
     VQ_COUNT(from_int);
+    // a type that really offers only T(int) would receive a truncated value
+    if constexpr (sizeof(I) > sizeof(int) ||
+                  (sizeof(I) == sizeof(int) && std::is_unsigned_v<I>)) {
+      bool big = v > static_cast<I>(2147483647);
+      if constexpr (std::is_signed_v<I>) big = big || v < static_cast<I>(-2147483647 - 1);
+      if (big) counts().bigint.fetch_add(1, std::memory_order_relaxed);
+    }
   }
   Q(const Q &) = default;
   Q(Q &&) = default;
